@@ -42,10 +42,17 @@ META = {
                   "are duplicate-free subsets of the declared size, flag discipline (an offspring still marked evaluated is field-equal to the parent it was "
                   "copied from), PCX/UNDX meet no zero divisor for >= 2 parents (exact Q, repaired orthogonalize) and symmetry of HUX/PMX/SSX/SBX; for all tapes "
                   "(= all random-stream outcomes). The models are tied to /repo on every run by tape replay (children reproduced exactly by vm_compute), an AST "
-                  "frame check (copy-before-write, evaluated=False with every store into variables) and an independent oracle under reachable extreme draws.",
+                  "frame check (copy-before-write, evaluated=False with every store into variables, no instance state) and an independent oracle under reachable extreme draws. "
+                  "Phase 2: exact-arithmetic models of the GUARDS of the scalar formulas (PM, SBX, NonUniformMutation._delta, SPX exponents) with proofs that for valid inputs "
+                  "(lb < ub, lb <= x <= ub, eta >= 0, draws in [0,1)) no division by zero occurs and every power base is non-negative (PM base b in [0,1]; SBX beta in (0,1], "
+                  "alpha in [1,2], 2 - alpha*rand > 0 because rand < 1); tied to the real run by tracing the locals of pm_mutation / sbx_crossover / _delta (sys.settrace) and "
+                  "checking every traced guard quantity step by step against the model and its proved range in Coq.",
     "level_note": "Trusted: Coq kernel + VM; the harness (random/clip/magnitude wrappers, literal printer); the hand-written models are tied to the code on the sampled "
-                  "calls only. The scalar float formulas (pow, sqrt, gauss-scaled sums) are NOT interpreted: their result is an arbitrary DVal tape entry, so "
-                  "'returns without error' for them rests on the oracle; PCX/UNDX division safety is over exact rationals (rounding-sensitive calls are counted and "
+                  "calls only. pow itself, sqrt and the gauss-scaled vector sums are NOT interpreted (the candidate reaches the operator model as a DVal tape entry; "
+                  "the powers t**(eta+1), t**perturbation are Section variables of which only [0,1] -> [0,1] is assumed). The formula-guard theorems are over exact rationals: "
+                  "the float-rounding argument (sign / monotonicity of correctly rounded + - * /, Sterbenz) is written in Proofs/RealFormulasProofs.v and exercised by the oracle "
+                  "(extreme-only draw streams, parents on bounds, tiny/huge ranges, eta in {0,1e-9,0.5,1,15,20,100,1e6}), not proved; guard traces with a value beyond 1e150 "
+                  "(overflow) or with an exception are skipped and counted; DE and UniformMutation contain no partial operation; PCX/UNDX division safety is over exact rationals (rounding-sensitive calls are counted and "
                   "excluded from the replay, still checked by the oracle). 'Parents unchanged' is structural in a functional model and is covered by the frame check "
                   "and the driver's snapshots, not by a theorem. Hypotheses: lb <= ub for clip_range, >= 2 parents for PCX/UNDX, duplicate-free equal-set parents "
                   "for PMX, duplicate-free `elements` for Replace. Rejected configurations (not violations): Real(lb,lb) with PM, PCX/UNDX with one parent, "
@@ -482,6 +489,161 @@ def values_of(s, tspecs):
     return out
 
 
+
+# ----------------------------------------------------------------------------
+# guard traces of the scalar formulas (Model/RealFormulas.v)
+# ----------------------------------------------------------------------------
+import ast as _ast
+import inspect as _inspect
+import sys as _sys
+import textwrap as _textwrap
+
+
+class GuardTracer:
+    """Records, for every execution of PM.pm_mutation, SBX.sbx_crossover and NonUniformMutation._delta in the REAL run,
+    the value each assignment statement gave to its target(s), in execution order (sys.settrace, line events)."""
+
+    _CODES = None      # built once per process from the source of the loaded platypus.operators
+
+    def __init__(self):
+        if GuardTracer._CODES is None:
+            GuardTracer._CODES = self._build()
+        self.codes = GuardTracer._CODES
+        self.traces = []
+
+    @staticmethod
+    def _build():
+        import platypus.operators as O
+        codes = {}
+        for kind, fn in (("PM", O.PM.pm_mutation), ("SBX", O.SBX.sbx_crossover), ("NUM", O.NonUniformMutation._delta)):
+            code = fn.__code__
+            src = _textwrap.dedent(_inspect.getsource(fn))
+            amap = {}
+            for node in _ast.walk(_ast.parse(src)):
+                if isinstance(node, (_ast.Assign, _ast.AugAssign)):
+                    tl = node.targets if isinstance(node, _ast.Assign) else [node.target]
+                    names = []
+                    for t in tl:
+                        for x in (t.elts if isinstance(t, (_ast.Tuple, _ast.List)) else [t]):
+                            if isinstance(x, _ast.Name):
+                                names.append(x.id)
+                    if names:
+                        amap[code.co_firstlineno + node.lineno - 1] = names
+            codes[code] = (kind, amap)
+        return codes
+
+    def _global(self, frame, event, arg):
+        if event != "call" or frame.f_code not in self.codes:
+            return None
+        kind, amap = self.codes[frame.f_code]
+        loc = frame.f_locals
+        me = loc.get("self")
+        tr = {"kind": kind, "args": {k: v for k, v in loc.items() if k != "self"}, "seq": [], "raised": False}
+        if kind in ("PM", "SBX"):
+            tr["eta"] = getattr(me, "distribution_index", None)
+        else:
+            alg = getattr(me, "algorithm", None)
+            tr["nfe"], tr["swarm"], tr["maxit"] = getattr(alg, "nfe", None), getattr(alg, "swarm_size", None), getattr(me, "max_iterations", None)
+        self.traces.append(tr)
+        state = {"prev": None}
+
+        def local(fr, ev, a):
+            if ev in ("line", "return", "exception"):
+                pl = state["prev"]
+                if pl in amap and ev != "exception":
+                    for nm in amap[pl]:
+                        if nm in fr.f_locals:
+                            tr["seq"].append((nm, fr.f_locals[nm]))
+                if ev == "exception":
+                    tr["raised"] = True
+                state["prev"] = fr.f_lineno if ev == "line" else None
+            return local
+        return local
+
+    def __enter__(self):
+        self._old = _sys.gettrace()
+        _sys.settrace(self._global)
+        return self
+
+    def __exit__(self, *a):
+        _sys.settrace(self._old)
+
+
+def _finite(*vals):
+    """finite and far from overflow (the exact model has no overflow: 2.0*(y1 - lb) = inf makes beta = 0.0 in floats)"""
+    return all(isinstance(v, (int, float)) and not isinstance(v, bool) and v == v and abs(v) < 1e150 for v in vals)
+
+
+def guard_cases(tr):
+    """-> (list of Coq gcase literals, reason-if-not-usable).  Shape errors (the code no longer assigns what the
+    model's steps describe) are reported as ('', 'shape: ...')."""
+    q = C.q_lit
+    names = [n for n, _v in tr["seq"]]
+    vals = tr["seq"]
+    if tr["raised"]:
+        return [], "raised"
+    if tr["kind"] == "PM":
+        a = tr["args"]
+        d = dict((n, v) for n, v in reversed(vals))        # first assignment of each name
+        lo = "bl" in d
+        if not ({"u", "dx", "b"} <= set(d)) or not (lo or "bu" in d):
+            return [], "shape: PM.pm_mutation assigns %r" % (names,)
+        frac = d["bl"] if lo else d["bu"]
+        eta = tr["eta"]
+        if not _finite(a.get("x"), a.get("lb"), a.get("ub"), d["u"], d["dx"], frac, d["b"], eta):
+            return [], "non-finite"
+        try:
+            pv = pow(1.0 - frac, eta + 1.0)
+        except Exception:       # noqa: BLE001
+            return [], "non-finite"
+        if not _finite(pv):
+            return [], "non-finite"
+        return ["GPM %s %s %s %s %s %s %s %s %s %s" % (C.bool_lit(lo), q(a["x"]), q(a["lb"]), q(a["ub"]), q(d["u"]), q(eta), q(pv),
+                                                       q(d["dx"]), q(frac), q(d["b"]))], None
+    if tr["kind"] == "SBX":
+        a = tr["args"]
+        eta = tr["eta"]
+        x1, x2, lb, ub = a.get("x1"), a.get("x2"), a.get("lb"), a.get("ub")
+        if not _finite(x1, x2, lb, ub, eta):
+            return [], "non-finite"
+        if names == ["dx"]:
+            return ["GSBX0 %s %s" % (q(x1), q(x2))], None
+        if "rand" not in names or names.count("beta") != 2 or "x1" not in names or "y1" not in names or "y2" not in names:
+            return [], "shape: SBX.sbx_crossover assigns %r" % (names,)
+        i1 = names.index("x1")
+        i2 = names.index("x2", i1)
+        d = dict((n, v) for n, v in reversed(vals[:i1]))
+        y1, y2, rand = d["y1"], d["y2"], d["rand"]
+        out = []
+        for upper, part in ((False, vals[:i1]), (True, vals[i1:i2])):
+            betas = [v for n, v in part if n == "beta"]
+            alphas = [v for n, v in part if n == "alpha"]
+            if len(betas) != 1 or len(alphas) not in (2, 3):
+                return [], "shape: SBX side assigns %r" % ([n for n, _ in part],)
+            beta = betas[0]
+            if not _finite(y1, y2, rand, beta, *alphas):
+                return [], "non-finite"
+            first = len(alphas) == 2
+            if (Fraction(rand) <= 1 / Fraction(alphas[0])) != (rand <= 1.0 / alphas[0]):
+                return [], "inexact-branch"
+            try:
+                pv = pow(beta, eta + 1.0)
+            except Exception:   # noqa: BLE001
+                return [], "non-finite"
+            out.append("GSIDE %s %s %s %s %s %s %s %s %s %s %s %s %s %s" % (
+                C.bool_lit(upper), q(x1), q(x2), q(y1), q(y2), q(ub if upper else lb), q(rand), q(eta), q(pv), C.bool_lit(first),
+                q(beta), q(alphas[0]), q(alphas[1]), q(alphas[-1])))
+        return out, None
+    if tr["kind"] == "NUM":
+        d = dict((n, v) for n, v in reversed(vals))
+        if "fraction" not in d:
+            return [], "shape: NonUniformMutation._delta assigns %r" % (names,)
+        if not _finite(tr["nfe"], tr["swarm"], tr["maxit"], d["fraction"]):
+            return [], "non-finite"
+        return ["GNUM %s %s %s %s" % (q(tr["nfe"]), q(tr["swarm"]), q(tr["maxit"]), q(d["fraction"]))], None
+    return [], "shape: unknown kind"
+
+
 # ----------------------------------------------------------------------------
 # one call of a real operator
 # ----------------------------------------------------------------------------
@@ -506,11 +668,14 @@ def run_call(opspec, tspecs, pspecs, rs, op=None, problem=None):
         before = [snapshot(p) for p in parents]
         containers = [[id(v) for v in p.variables._data if isinstance(v, list)] for p in parents]
         plist = list(parents)
+        gt = GuardTracer()
         try:
-            out = op.evolve(plist)
+            with gt:
+                out = op.evolve(plist)
         except Exception as e:     # noqa: BLE001 — any exception is an observation for the oracle
             res["exc"] = (type(e).__name__, str(e)[:200])
             out = None
+        res["guard_traces"] = gt.traces
         after = [snapshot(p) for p in parents]
         if opspec["name"] == "Multimethod" and res["exc"] is None:
             res["next"] = op.next_variator
@@ -711,9 +876,11 @@ def inexact_reason(opspec, tspecs, pspecs, r):
 # generators
 # ----------------------------------------------------------------------------
 BOUNDS = [(0.0, 1.0), (0.0, 1.0), (-1.0, 1.0), (-5.0, 5.0), (0.0, 8.0), (-8.0, -2.0), (0.25, 0.75), (0.1, 0.7),
-          (-1e308, 1e308), (-HUGE, HUGE), (0.0, 1e-300), (1.0, 1.0000000000000002), (-3.0, 1e6)]
+          (-1e308, 1e308), (-HUGE, HUGE), (0.0, 1e-300), (1.0, 1.0000000000000002), (-3.0, 1e6),
+          (0.0, 5e-324), (-1e-300, 1e-300), (1e300, 1.0000001e300), (-2.0 ** -1060, 2.0 ** -1060)]
 SMALL_BOUNDS = [(0.0, 1.0), (0.0, 1.0), (-1.0, 1.0), (-4.0, 4.0), (0.0, 8.0), (0.25, 0.75)]
 PROBS = [1.0, 1.0, 0.5, 0.25, 0.3, 0.9, 0.0, 1]
+ETAS = [20.0, 15.0, 0.5, 100.0, 0.0, 1e-9, 1e6, 1.0]
 ELEMENT_POOLS = [("int", lambda n: list(range(n))),
                  ("int", lambda n: [10 * i + 3 for i in range(n)]),
                  ("str", lambda n: ["e%d" % i for i in range(n)]),
@@ -899,7 +1066,7 @@ def gen_case(rng, opname, fixed=None, nvars=None):
         ts = gen_types(rng, ["Real"])
         sp = fixed or {"name": opname, "probability": rng.choice(PROBS + [1, 2])}
         if opname == "PM" and fixed is None:
-            sp["distribution_index"] = rng.choice([20.0, 0.5, 100.0, 0.0])
+            sp["distribution_index"] = rng.choice(ETAS)
         if opname == "UM":
             for t in ts:     # rejected configuration for UM: ub - lb overflows (random.uniform itself leaves the range)
                 if t["k"] == "Real" and (t["ub"] - t["lb"]) == math.inf:
@@ -915,7 +1082,7 @@ def gen_case(rng, opname, fixed=None, nvars=None):
         return sp, ts, gen_parents(rng, ts, rng.choice([1, 2]), st), st, malformed
     if opname == "SBX":
         ts = gen_types(rng, ["Real"])
-        sp = fixed or {"name": "SBX", "probability": prob_for(rng, True), "distribution_index": rng.choice([15.0, 0.5, 100.0, 0.0])}
+        sp = fixed or {"name": "SBX", "probability": prob_for(rng, True), "distribution_index": rng.choice(ETAS)}
         st = rng.choice(["random", "random", "bound", "identical", "near", "grid"])
         return sp, ts, gen_parents(rng, ts, 2, st), st, malformed
     if opname == "DE":
@@ -1104,6 +1271,8 @@ def shippable(r):
 
 
 SYMMETRIC = ("SBX", "HUX", "PMX", "SSX")
+GLITS = []          # guard-trace cases of this run (Coq literals)
+GUARD_CAP = 4000
 
 
 def check_symmetry(ctx, opspec, tspecs, pspecs, rs, r):
@@ -1169,6 +1338,21 @@ def one_case(ctx, opname, opspec, tspecs, pspecs, rs, style, malformed, stats, l
             lits.append(case_literal(opspec, tspecs, pspecs, r))
             litinfo.append((opname, opspec, tspecs, pspecs, rs, malformed or op is not None))
             st["shipped"] += 1
+    gs = stats.setdefault("_guard_traces", {"PM": 0, "SBX": 0, "NUM": 0, "cases": 0, "skipped_non_finite": 0, "skipped_raised": 0,
+                                            "skipped_inexact_branch": 0, "shape_errors": []})
+    if not malformed:
+        for tr in r.get("guard_traces", []):
+            gl, why = guard_cases(tr)
+            gs[tr["kind"]] += 1
+            if why is None:
+                if len(GLITS) < GUARD_CAP:
+                    GLITS.extend(gl)
+                    gs["cases"] += len(gl)
+            elif why.startswith("shape"):
+                if len(gs["shape_errors"]) < 5:
+                    gs["shape_errors"].append(why)
+            else:
+                gs["skipped_" + why.replace("-", "_")] = gs.get("skipped_" + why.replace("-", "_"), 0) + 1
     if wrote or r["injected"] or style in ("identical", "centroid", "collinear", "bound", "near", "malformed"):
         ctx.mark((opname, json.dumps([opspec, tspecs, pspecs], sort_keys=True, default=str), json.dumps(rs, sort_keys=True)))
     return r, viols
@@ -1197,6 +1381,7 @@ def corpus_cases():
 
 def run(ctx):
     from translate import framecheck
+    del GLITS[:]
     rng = ctx.rng
     # ---- frame check (AST discipline) on the current tree
     fc = framecheck.check_operators(os.path.join(C.REPO, "platypus", "operators.py"), os.path.join(C.REPO, "platypus", "_math.py"))
@@ -1244,6 +1429,17 @@ def run(ctx):
                                  op=op, problem=same_obj, history=history if step > 0 else None)
                 history.append({"op": cur, "types": tspecs, "parents": pspecs, "rng": rs, "same_problem_object": same_obj is not None})
                 op, problem = r["op"], r["problem"]
+    # ---- the scalar formulas under nothing but extreme reachable draws (every primitive outcome scripted: u in
+    # {0, 2^-53, 0.5, 1-2^-53}), parents on the bounds or at random, tiny and huge ranges, eta in ETAS
+    for opname in ("PM", "SBX", "NonUniformMutation", "SPX", "UniformMutation", "DE"):
+        for _ in range(ctx.scale(60, 1500)):
+            opspec, tspecs, pspecs, style, malformed = gen_case(rng, opname)
+            if rng.random() < 0.6:
+                k = len(pspecs)
+                pspecs = gen_parents(rng, tspecs, k, rng.choice(["bound", "bound", "identical", "near"]))
+                style = "formula-fuzz"
+            rs = {"mode": "script", "seed": rng.randrange(1 << 30), "p_ext": 1.0, "menu": [0.0, 2.0 ** -53, 0.5, TOP]}
+            one_case(ctx, opname, opspec, tspecs, pspecs, rs, "extreme-only:" + style, malformed, stats, lits, litinfo)
     # ---- oracle only: inputs the exact model cannot take (PCX/UNDX/SPX on wide and overflowing bounds)
     extra = 0
     for _ in range(ctx.scale(150, 3000)):
@@ -1284,6 +1480,21 @@ def run(ctx):
                 "non-trivial = an offspring was written (flag cleared) or an extreme was injected or the parents are degenerate; distinct by (operator, problem, parents, stream)")
     ctx.sample({"coq_case": lits[len(lits) // 2][:1500]})
 
+    # ---- guard traces of the scalar formulas against Model/RealFormulas.v (step by step, ranges included)
+    gs = stats.get("_guard_traces", {})
+    ctx.obligation("correspondence:guard-trace-shape(PM.pm_mutation, SBX.sbx_crossover, NonUniformMutation._delta)", "correspondence",
+                   not gs.get("shape_errors"), "; ".join(gs.get("shape_errors", [])))
+    if GLITS:
+        gbad = C.run_coq_cases(ctx, "guards", ["Base.Num", "Base.FVal", "Base.Tape", "Model.Operators", "Model.RealOps", "Model.RealFormulas", "Harness.H06"],
+                               "gcase", "g06_check", GLITS, shard=400)
+        if gbad is not None:
+            ctx.obligation("correspondence:formula-guards(%d traced steps: PM %d, SBX %d, NonUniformMutation %d executions)" % (
+                len(GLITS), gs.get("PM", 0), gs.get("SBX", 0), gs.get("NUM", 0)), "correspondence", not gbad,
+                "a traced guard quantity differs from the model's step or leaves its proved range on %d cases; first: %s" % (
+                    len(gbad), GLITS[gbad[0]] if gbad else ""))
+            ctx.coverage["guard_cases"] = len(GLITS)
+            ctx.coverage["guard_mismatches"] = len(gbad)
+            ctx.sample({"guard_case": GLITS[len(GLITS) // 3]}, limit=12)
     bad = C.run_coq_cases(ctx, "replay", ["Base.Num", "Base.FVal", "Base.Tape", "Model.Operators", "Model.RealOps", "Harness.H06"],
                           "c06case", "c06_check", lits, shard=ctx.scale(350, 400))
     if bad is not None:
